@@ -104,8 +104,10 @@ Qed.
 
 (* ---------- the invariant ---------- *)
 Record state_ok (stab : list sentry) (j : nat) (nd : node) (se : sentry) (s : mstate) : Prop := {
-  so_other : map fst (m_other s) = ups stab (n_fields nd);
-  so_prev : m_prev s = ups stab (n_fields nd);
+  so_prev_incl : incl (m_prev s) (ups stab (n_fields nd));
+  so_other_nil : ups stab (n_fields nd) = [] -> m_other s = [];
+  so_exact : List.length (ups stab (n_fields nd)) <= 1 ->
+             m_prev s = ups stab (n_fields nd) /\ map fst (m_other s) = ups stab (n_fields nd);
   so_cur : m_cur s = map (fun f => (j, f)) (n_split nd);
   so_comb : m_comb s = n_comb nd;
   so_rpnf : m_rpnf s = s_faxes se;
@@ -120,6 +122,7 @@ Record state_ok (stab : list sentry) (j : nat) (nd : node) (se : sentry) (s : ms
 Record entry_ok (stab : list sentry) (j : nat) (nd : node) (me : mnode) (se : sentry) : Prop := {
   eo_nodup : NoDup (s_axes se);
   eo_bound : forall k, In k (s_axes se) -> fst k <= j;
+  eo_axes : s_axes se = up_axes stab (n_fields nd) ++ map (fun f => (j, f)) (n_split nd);
   eo_faxes : s_faxes se = filter (fun k => negb (memk k (n_comb nd))) (s_axes se);
   eo_comb : incl (n_comb nd) (s_axes se);
   eo_sem_ext : forall r1 r2, agree (s_axes se) r1 r2 = true -> s_sem se r1 = s_sem se r2;
